@@ -1713,6 +1713,64 @@ func genWal(repo, out string) {
 		d = fmt.Sprintf("/-- UNTRANSLATABLE: %s -/\ndef write : Unit := ()\n", strings.ReplaceAll(err.Error(), "-/", "- /"))
 	}
 	sb.WriteString(d + "\n")
+	// WAL.Read
+	{
+		fdr := findFunc(p, "WAL", "Read")
+		rdN := "binary.Read(reader, binary.LittleEndian, &n)"
+		rdD := "binary.Read(reader, binary.LittleEndian, &data)"
+		spr := transSpec{
+			leanName: "read",
+			binders:  "{ε β : Type} (dec8 : List β → Int) (unm : List β → Option ε) (dflt : ε) (nilFD statFails seekFails readFails : Bool) (file : List β)",
+			retType:  "Option (List ε)",
+			exprMap: map[string]string{"w.fd == nil": "nilFD", "err != nil": "err", "info.Size() == 0": "(decide (file.length = 0))",
+				"bytes.NewReader(buf.Bytes())": "buf", "reader.Len() > 0": "(decide (0 < reader.length))",
+				"errors.Is(err, io.EOF) || errors.Is(err, io.ErrUnexpectedEOF)": "true",
+				"n < 0 || n > int64(reader.Len())":                              "(decide (n < 0) || decide ((reader.length : Int) < n))"},
+			state: []string{"reader", "entries"}, stateLn: []string{"reader", "entries"}, stateTy: []string{"List β", "List ε"},
+			zero:     map[string]string{"int64": "(0 : Int)", "types.Entry": "dflt", "[]types.Entry": "[]"},
+			loopFuel: "(file.length + 1)",
+			binds: map[string][][2]string{
+				"os.Stat(w.path)":                {{"info", "()"}, {"err", "statFails"}},
+				"w.fd.Seek(0, io.SeekStart)":     {{"err", "seekFails"}},
+				"bufferpool.Pool.Get()":          {{"buf", "([] : List β)"}},
+				"buf.ReadFrom(w.fd)":             {{"buf", "file"}, {"err", "readFails"}},
+				rdN:                              {{"n", "(dec8 reader)"}, {"err", "(decide (reader.length < 8))"}, {"reader", "(reader.drop 8)"}},
+				rdD:                              {{"data", "(reader.take n.toNat)"}, {"err", "false"}, {"reader", "(reader.drop n.toNat)"}},
+				"utils.TUnmarshal(data, &entry)": {{"entry", "((unm data).getD dflt)"}, {"err", "(unm data).isNone"}},
+			},
+			skipStmt: func(st ast.Stmt) bool {
+				s := goStr(st)
+				return s == "defer w.mu.Unlock()" || s == "defer bufferpool.Pool.Put(buf)" || s == "w.mu.Lock()" || s == "data := make([]byte, n)"
+			},
+			ret: func(vals []string, st []string) string {
+				if len(vals) == 2 && vals[1] == "nil" {
+					if vals[0] == "nil" {
+						return "some []"
+					}
+					return "some " + vals[0]
+				}
+				return "none"
+			},
+			fallOff:  func(st []string) string { return "some entries" },
+			panicVal: "none",
+			skipCall: func(c *ast.CallExpr) bool {
+				s := goStr(c.Fun)
+				return strings.HasPrefix(s, "vhook.") || strings.Contains(s, ".logger.")
+			},
+		}
+		dr := ""
+		errr := fmt.Errorf("WAL.Read not found")
+		if fdr != nil {
+			t := &translator{spec: spr}
+			body := t.stmts(fdr.Body.List, func() string { return "some entries" }, "", "")
+			errr = t.err
+			dr = fmt.Sprintf("def %s %s : %s :=\n  let reader : List β := []\n  let entries : List ε := []\n  %s\n", spr.leanName, spr.binders, spr.retType, body)
+		}
+		if errr != nil {
+			dr = fmt.Sprintf("/-- UNTRANSLATABLE: %s -/\ndef read : Unit := ()\n", strings.ReplaceAll(errr.Error(), "-/", "- /"))
+		}
+		sb.WriteString(dr + "\n")
+	}
 	sb.WriteString("end GenWal\n")
 	if err := os.WriteFile(out, []byte(sb.String()), 0644); err != nil {
 		panic(err)
